@@ -253,3 +253,29 @@ Fixpoint script_events (script : list sev) (ps : list cpx) : list ev :=
       | [] => Arrive (Exc EndOfStream) :: script_events sc []
       end
   end.
+
+(* ---------------------------------------------------------------- the socket, relationally *)
+(* one recv(n) on a stream socket with pending bytes b: ANY non-empty prefix of at most n bytes
+   (what POSIX promises for a blocking stream socket that is not closed) *)
+Inductive recv_any (b : list Z) (n : Z) : list Z -> list Z -> Prop :=
+| recv_prefix k : (0 < k)%nat -> Z.of_nat k <= n -> (k <= length b)%nat ->
+    recv_any b n (firstn k b) (skipn k b).
+
+(* _readData(need) against such a socket: need, data so far, pending -> data returned, pending left *)
+Inductive read_data_any : Z -> list Z -> list Z -> list Z -> list Z -> Prop :=
+| rd_done need acc b : need <= 0 -> read_data_any need acc b acc b
+| rd_step need acc b r b1 out b2 :
+    0 < need -> recv_any b need r b1 ->
+    read_data_any (need - zlen r) (acc ++ r) b1 out b2 ->
+    read_data_any need acc b out b2.
+
+(* readPacket against such a socket (both _readData calls complete) *)
+Inductive read_packet_any (b : list Z) : res cpx -> list Z -> Prop :=
+| rp_any h b1 d b2 :
+    read_data_any 2 [] b h b1 -> read_data_any (le_val h) [] b1 d b2 ->
+    read_packet_any b (set_wire d) b2.
+
+(* n successive readPacket calls against such a socket *)
+Inductive read_n_any : list Z -> list (res cpx) -> list Z -> Prop :=
+| rn_nil b : read_n_any b [] b
+| rn_cons b r b1 rs b2 : read_packet_any b r b1 -> read_n_any b1 rs b2 -> read_n_any b (r :: rs) b2.
